@@ -192,6 +192,21 @@ CLAIMED = {
         note="Trusted: TLC + Wide/Dyadic. 2^64 inputs per conversion are sampled, boundary directed. Exact ties accept either "
              "neighbour; for the torus conversion the tolerance also applies to the choice of the nearest integer.",
         technique="TLA+ contracts on exact dyadic arithmetic + TLC trace validation of recorded conversions"),
+    "C17": dict(
+        category="model_checking",
+        text="Reim4.tla writes the block extraction (single, contiguous rows, strided rows), block save and interleaved-complex <-> "
+             "reim4 conversions as address maps exactly as coded, next to the definition (block b = evaluations 4b..4b+3, real then "
+             "imaginary parts); TLC checks on a small box that they coincide, that save o extract and to_cplx o from_cplx are the "
+             "identity on all m numbers, and that the convolution window as coded equals its definition; Pointwise.tla does the same "
+             "for multiply / multiply-accumulate. The printed address maps are replayed on every variant (ref, AVX, FMA, dispatch, "
+             "simple) with injective probes; probes for every m up to 65536 (all or sampled blocks, rows 0..3, strides), dot "
+             "products with 1 and 2 columns (rows 0..8), every convolution window (k, sizea, sizeb) of a box and the pointwise "
+             "kernels of the three layouts on integer-valued data are recorded and validated by TLC; rounding on general data is "
+             "checked within 4 ulp of the terms' magnitude against exact fractions.",
+        design_ref="DESIGN.md section 4 C17",
+        note="Trusted: TLC; exactness of float arithmetic on small integers. Rounding claims are sampled (exploration), layouts and "
+             "index structure are model-checked and probed for every m.",
+        technique="TLA+ address-map definitions checked with TLC + replay of printed maps + TLC trace validation of probes and integer-data kernels"),
 }
 
 NOT_YET = "check not built yet in this session (planned, see DESIGN.md section 8)"
